@@ -169,6 +169,7 @@ class Session:
         self.nstmt = 0
         self.user = None
         self.closed = False
+        self.script_rest = []
 
     # ---- helpers
     def ident(self):
@@ -458,6 +459,7 @@ class Backend(threading.Thread):
         self.stopping = False
         self.startup_params = {}
         self.extra_startup = []     # extra ParameterStatus at startup
+        self.scripts = []           # scripted replies: each a list of segments [(bytes, [chunk offsets])]
 
     # ---- control
     def set_mode(self, mode):
@@ -602,6 +604,30 @@ class Backend(threading.Thread):
             if t == b'X':
                 s.log('terminate', dirt=s.dirt())
                 return
+            # ---- scripted reply mode (C03): the next Query / Sync is answered with a prepared stream
+            if s.copy == 'script':
+                if t == b'd':
+                    continue
+                if t in (b'c', b'f'):
+                    seg = s.script_rest.pop(0)
+                    if not s.script_rest:
+                        s.copy = None
+                    self.send_script_segment(s, seg)
+                    continue
+                if t in (b'S', b'H'):
+                    continue
+                s.log('script_unexpected', t=t.decode(errors='replace'))
+                continue
+            if self.scripts and t in (b'Q', b'S'):
+                scr = self.scripts.pop(0)
+                s.log('script_start', n=len(scr))
+                s.script_rest = list(scr[1:])
+                if s.script_rest:
+                    s.copy = 'script'
+                self.send_script_segment(s, scr[0])
+                continue
+            if self.scripts and t in (b'P', b'B', b'D', b'E', b'C', b'H'):
+                continue
             if s.copy == 'in':
                 if t == b'd':
                     s.log('copydata', n=len(body), client=s.copy_tag or '')
@@ -805,6 +831,17 @@ class Backend(threading.Thread):
             s.log('unknown_message', t=t.decode(errors='replace'))
             s.send(W.ErrorResponse('08P01', 'invalid frontend message type %d' % t[0], 'FATAL'))
             return
+
+    def send_script_segment(self, s, seg):
+        data, cuts = seg
+        if self.record_bytes:
+            s.log('be_write', data=data)
+        prev = 0
+        for c in list(cuts) + [len(data)]:
+            if c > prev:
+                s.sock.sendall(data[prev:c])
+                prev = c
+                time.sleep(0.0008)
 
     def send_split(self, s, out, sql=''):
         chunk = 0
